@@ -33,6 +33,9 @@ def gen(rng, idx, tier):
             "op": rng.choice(["store", "store", "store", "find", "n_set", "n_create", "n_action", "n_event_report"]),
             "scu_max": rng.choice([0, 16, 128, 16382]), "scp_max": rng.choice([0, 16, 128, 16382]),
             "chunked_send": rng.randrange(4) == 0, "chunked_recv": rng.randrange(3) == 0,
+            # chunked send only: the file is encoded in this syntax (None = the accepted one); a file's bytes are sent
+            # as they are, so a file in another syntax than the accepted one must be refused, not sent
+            "file_ts": rng.choice([None, None, C.IVLE, C.EVLE, C.DEFL, C.EVBE]),
             "sched": {"switch_pct": rng.choice([5, 30])}, "net": C.gen_net(rng)}
 
 
@@ -215,6 +218,11 @@ def execute(sc, ctx):
                 ds.file_meta = FileMetaDataset()
                 ds.file_meta.TransferSyntaxUID = ts
                 if sc["chunked_send"]:
+                    if sc.get("file_ts"):
+                        from pydicom.uid import UID
+
+                        ts = UID(sc["file_ts"])
+                        ds.file_meta.TransferSyntaxUID = ts
                     ds.file_meta.MediaStorageSOPClassUID = ds.SOPClassUID
                     ds.file_meta.MediaStorageSOPInstanceUID = ds.SOPInstanceUID
                     path = os.path.join(tmpdir, "in.dcm")
@@ -271,9 +279,15 @@ def check(sc, r):
     if not r.obs.get("established"):
         return out
     res = r.obs.get("result")
+    op = sc["op"]
+    if op == "store" and sc["chunked_send"] and sc.get("file_ts") and sc["file_ts"] != sc["ts"]:
+        # the file's bytes are in another transfer syntax than the only accepted context's: nothing may be sent
+        sent = _wire_dataset(r, "C-STORE-RQ")
+        if not (isinstance(res, str) and res.startswith("raised:ValueError")) or sent is not None:
+            out.append(C.v("chunked-send", "C25/file-sent-under-other-syntax", "a file encoded in %s was sent in chunked mode on an association whose only context for it uses %s (result %r)" % (sc["file_ts"], sc["ts"], res)))
+        return out
     if isinstance(res, str) and res.startswith("raised:"):
         return out
-    op = sc["op"]
     tsn = {C.IVLE: "ivle", C.EVLE: "evle", C.EVBE: "evbe", C.DEFL: "deflated"}[sc["ts"]]
     mode = "%s%s" % ("chunked-send" if sc["chunked_send"] and op == "store" else "memory-send", "+chunked-recv" if sc["chunked_recv"] and op == "store" else "")
     seen = [s for s in r.obs.get("seen", []) if s["kind"] == op]
